@@ -1,5 +1,7 @@
 import FcpptProofs.C14.Old
 import FcpptProofs.C14.Bits
+import FcpptProofs.C14.Member
+import FcpptProofs.C14.Neighbour
 /-!
 # C14 — vector, dim and matrix arithmetic obeys the exact ring and module laws
 
@@ -417,6 +419,359 @@ theorem bitStrings_length (n : Nat) : (bitStrings n).length = 2 ^ (n + 1) := Lem
 theorem bitStrings_get (n : Nat) (k : Nat) (hk : k < (bitStrings n).length) (i : Fin (n + 1)) :
     ((bitStrings n)[k]).get i = bitOf k i.val := Lemma.get_bitStrings n k hk i
 
+/-! ## 10. member operators: in-place updates of objects in memory, operands that alias the target
+
+`Mem`, `Ref` (a storage as an lvalue), `Ref.load` (the value an object has at a moment): `Model/C14/Member.lean`.
+Every theorem compares the object *after* the call with the free operator of §3 applied to the values the operands had
+*before* the call, per component, for all sizes and all three storage kinds. -/
+
+/-- `storage[i]` of an lvalue storage is the cell `base + i` (static storage: its array; buffer view: the pointer;
+    row view: `impl[offset + i]`) -/
+theorem addr_eq_base_add {len n : Nat} (r : Ref len n) (i : Fin n) : (r.addr i).val = r.base + i.val := Lemma.addr_val r i
+
+theorem addr_injective {len n : Nat} (r : Ref len n) : Function.Injective r.addr := Lemma.addr_injective r
+
+/-- the components of the value of an object are the cells read through its references -/
+theorem load_get {len n : Nat} (mem : Mem len) (r : Ref len n) (i : Fin n) : (r.load mem).get i = r.read mem i := Lemma.get_load mem r i
+
+/-- the row view `at_r<i>(m)` of a matrix in memory denotes the row view of the matrix's value -/
+theorem load_atR {len r c : Nat} (m : MatRef len r c) (mem : Mem len) (i : Fin r) : (m.atR i).load mem = (m.load mem).atR i := rfl
+
+/-- the reference `at_r_c<i, j>(m)` / `m.mij()` reads the entry `(i, j)` of the matrix's value -/
+theorem load_atRC {len r c : Nat} (m : MatRef len r c) (mem : Mem len) (i : Fin r) (j : Fin c) : mem[m.atRC i j] = (m.load mem).atRC i j := by
+  show mem[(m.atR i).addr j] = ((m.load mem).atR i).get j
+  rw [← load_atR]; exact (Lemma.get_load mem (m.atR i) j).symm
+
+/-- which operands `left op= right` supports: exactly those where the target starts at or before the right operand, or
+    behind its end.  (The right operand may therefore be the same object, overlap the target from behind, or be disjoint.) -/
+theorem noClobber_iff {len n : Nat} (l r : Ref len n) : NoClobber l r ↔ (l.base ≤ r.base ∨ r.base + n ≤ l.base) := Lemma.noClobber_iff l r
+
+/-- the right operand is the target itself: `v += v`, `v *= v`, `m -= m` -/
+theorem noClobber_self {len n : Nat} (v : Ref len n) : NoClobber v v := Lemma.noClobber_self v
+
+theorem noClobber_of_disjoint {len n : Nat} (l r : Ref len n) (h : ∀ i j, l.addr i ≠ r.addr j) : NoClobber l r := fun i j _ => h j i
+
+/-- two row views of one matrix, in any order, equal or different rows: `at_r<0>(m) += at_r<1>(m)`, `at_r<1>(m) -= at_r<1>(m)` -/
+theorem noClobber_rows {len r c : Nat} (m : MatRef len r c) (i j : Fin r) : NoClobber (m.atR i) (m.atR j) := Lemma.noClobber_rows m i j
+
+/-- `l += r` is the free `l + r` on the values before the call -/
+theorem addAssign_eq_add {len n : Nat} (l r : Ref len n) (mem : Mem len) (h : NoClobber l r) (i : Fin n) :
+    (l.load (addAssign l r mem)).get i = (add (l.load mem) (r.load mem)).get i := by
+  simp only [add, Lemma.get_binaryMap, Lemma.get_load]
+  exact (Lemma.memberOperator_elem (· + ·) elemAdd (fun _ _ _ => rfl) l r mem h).1 i
+
+/-- `l -= r` is the free `l - r` -/
+theorem subAssign_eq_sub {len n : Nat} (l r : Ref len n) (mem : Mem len) (h : NoClobber l r) (i : Fin n) :
+    (l.load (subAssign l r mem)).get i = (sub (l.load mem) (r.load mem)).get i := by
+  simp only [sub, Lemma.get_binaryMap, Lemma.get_load]
+  exact (Lemma.memberOperator_elem (· - ·) elemSub (fun _ _ _ => rfl) l r mem h).1 i
+
+/-- `l *= r` (component-wise) is the free `l * r` -/
+theorem mulAssign_eq_mul {len n : Nat} (l r : Ref len n) (mem : Mem len) (h : NoClobber l r) (i : Fin n) :
+    (l.load (mulAssign l r mem)).get i = (mul (l.load mem) (r.load mem)).get i := by
+  simp only [mul, Lemma.get_binaryMap, Lemma.get_load]
+  exact (Lemma.memberOperator_elem (· * ·) elemMul (fun _ _ _ => rfl) l r mem h).1 i
+
+/-- `+=`, `-=`, `*=` change no cell outside the target (whatever the operands are) -/
+theorem memberOps_frame {len n : Nat} (l r : Ref len n) (mem : Mem len) (a : Fin len) (ha : l.Outside a) :
+    (addAssign l r mem)[a] = mem[a] ∧ (subAssign l r mem)[a] = mem[a] ∧ (mulAssign l r mem)[a] = mem[a] :=
+  ⟨Lemma.memberOperator_frame (· + ·) elemAdd (fun _ _ _ => rfl) l r mem a ha,
+   Lemma.memberOperator_frame (· - ·) elemSub (fun _ _ _ => rfl) l r mem a ha,
+   Lemma.memberOperator_frame (· * ·) elemMul (fun _ _ _ => rfl) l r mem a ha⟩
+
+/-- `v += v` doubles, `v -= v` is null, `v *= v` squares every component -/
+theorem memberOps_self {len n : Nat} (v : Ref len n) (mem : Mem len) (i : Fin n) :
+    (v.load (addAssign v v mem)).get i = (v.load mem).get i + (v.load mem).get i ∧
+    (v.load (subAssign v v mem)).get i = 0 ∧
+    (v.load (mulAssign v v mem)).get i = (v.load mem).get i * (v.load mem).get i := by
+  refine ⟨?_, ?_, ?_⟩
+  · rw [addAssign_eq_add v v mem (noClobber_self v)]; simp [add]
+  · rw [subAssign_eq_sub v v mem (noClobber_self v)]; simp [sub]
+  · rw [mulAssign_eq_mul v v mem (noClobber_self v)]; simp [mul]
+
+/-- `v *= s` is the free `v * s` with the value `s` had before the call — for **every** scalar argument, also a reference to
+    a component of `v` itself (`v *= v.x()`, `m *= at_r_c<1,1>(m)`, `d *= d.w()`): the factor is copied at the call -/
+theorem mulAssignScalar_eq_smulR {len n : Nat} (v : Ref len n) (s : Scalar len) (mem : Mem len) (i : Fin n) :
+    (v.load (mulAssignScalar v s mem)).get i = (smulR (v.load mem) (s.read mem)).get i := by
+  simp only [smulR, Lemma.get_map, Lemma.get_load, mulAssignScalar]
+  exact (Lemma.multiplyScalar_spec v (s.read mem) mem).1 i
+
+/-- … in particular for the scalar `at<k>(v)` of the target -/
+theorem mulAssignScalar_own_component {len n : Nat} (v : Ref len n) (k : Fin n) (mem : Mem len) (i : Fin n) :
+    (v.load (mulAssignScalar v (.cell (v.atI k)) mem)).get i = (v.load mem).get i * (v.load mem).get k := by
+  rw [mulAssignScalar_eq_smulR]; simp [smulR, Lemma.get_load, Scalar.read, Ref.read, Ref.atI]
+
+theorem mulAssignScalar_frame {len n : Nat} (v : Ref len n) (s : Scalar len) (mem : Mem len) (a : Fin len) (ha : v.Outside a) :
+    (mulAssignScalar v s mem)[a] = mem[a] := (Lemma.multiplyScalar_spec v (s.read mem) mem).2 a ha
+
+/-- the converting `operator=` copies the value the right operand had before the call -/
+theorem assignConv_eq {len n : Nat} (l r : Ref len n) (mem : Mem len) (h : NoClobber l r) (i : Fin n) :
+    (l.load (assignConv l r mem)).get i = (r.load mem).get i := by
+  simp only [Lemma.get_load, assignConv]
+  exact (Lemma.assign_spec l r mem h).1 i
+
+theorem assignConv_frame {len n : Nat} (l r : Ref len n) (mem : Mem len) (a : Fin len) (ha : l.Outside a) : (assignConv l r mem)[a] = mem[a] :=
+  Lemma.loop_frame n l.addr _ (fun _ _ _ h => Lemma.set_frame _ _ _ _ h) mem a ha
+
+/-- copy assignment between two static objects copies the value (all reads happen before the writes: no condition) -/
+theorem copyAssign_static {len n : Nat} (base : Nat) (hb : base + n ≤ len) (other : Ref len n) (mem : Mem len) (i : Fin n) :
+    (copyAssign (.static base hb) other mem).2 = .static base hb ∧
+    ((Ref.static base hb).load (copyAssign (.static base hb) other mem).1).get i = (other.load mem).get i := by
+  refine ⟨rfl, ?_⟩
+  simp only [Lemma.get_load, copyAssign, Ref.read, Ref.write]
+  rw [(Lemma.loop_write_const n (Ref.static base hb).addr (fun i => (Vector.ofFn fun i => mem[other.addr i])[i]) mem (Lemma.addr_injective _)).1 i]
+  simp
+
+/-- copy assignment between two views of the same type copies the *view*: no cell changes, the left object afterwards
+    refers to the cells of the right one (`auto r0 = m.get_unsafe(0); r0 = m.get_unsafe(1);` leaves `m` as it is) -/
+theorem copyAssign_view {len n : Nat} (self other : Ref len n) (mem : Mem len) (h : ∀ base hb, self ≠ .static base hb) :
+    copyAssign self other mem = (mem, other) := by
+  cases self with
+  | static base hb => exact absurd rfl (h base hb)
+  | buffer ptr hp => rfl
+  | rowView impl offset ho => rfl
+
+/-- `detail::copy` (converting constructor into static storage) is `to_array` of the value -/
+theorem copy_eq {len n : Nat} (arg : Ref len n) (mem : Mem len) : copy arg mem = fromArray (toArray (arg.load mem)) := by
+  simp only [copy, toArray]
+  congr 1
+  ext i hi
+  simp [Lemma.get_load]
+
+/-- `dest = static_<…>(src)` (converting constructor, then assignment from the temporary) gives `dest` the value of the temporary;
+    with `copy_eq`: the value `src` had before the statement, whatever `src` aliases -/
+theorem assignValue_eq {len n : Nat} (dest : Ref len n) (v : Storage n) (mem : Mem len) (i : Fin n) :
+    (dest.load (assignValue dest v mem)).get i = v.get i := by
+  simp only [Lemma.get_load, assignValue, Ref.read, Ref.write]
+  exact (Lemma.loop_write_const n dest.addr v.get mem (Lemma.addr_injective _)).1 i
+
+theorem assignValue_copy_eq {len n : Nat} (dest src : Ref len n) (mem : Mem len) (i : Fin n) :
+    (dest.load (assignValue dest (copy src mem) mem)).get i = (src.load mem).get i := by
+  rw [assignValue_eq, copy_eq]; simp [toArray]
+
+theorem assignValue_frame {len n : Nat} (dest : Ref len n) (v : Storage n) (mem : Mem len) (a : Fin len) (ha : dest.Outside a) :
+    (assignValue dest v mem)[a] = mem[a] :=
+  Lemma.loop_frame n dest.addr _ (fun _ _ _ h => Lemma.set_frame _ _ _ _ h) mem a ha
+
+theorem ref_getUnsafe_ok {len n : Nat} (v : Ref len n) (i : Fin n) : v.getUnsafe i.val = .ok (v.atI i) := by simp [Ref.getUnsafe, Ref.atI]
+theorem ref_getUnsafe_oob {len n : Nat} (v : Ref len n) (i : Nat) (h : n ≤ i) : v.getUnsafe i = .error .oob := by
+  simp [Ref.getUnsafe, Nat.not_lt.2 h]
+
+/-- `at<k>(v) = x` changes component `k` and nothing else -/
+theorem setElem_eq {len n : Nat} (v : Ref len n) (k : Fin n) (x : Int) (mem : Mem len) (i : Fin n) :
+    (v.load (setElem (v.atI k) x mem)).get i = if i = k then x else (v.load mem).get i := by
+  simp only [Lemma.get_load, Ref.read, setElem, Ref.atI, Fin.getElem_fin]
+  by_cases h : i = k
+  · subst h; simp
+  · rw [if_neg h, Vector.getElem_set_ne]
+    exact fun e => h (Lemma.addr_injective v (Fin.ext e)).symm
+
+/-- **all histories**: whatever sequence of member-operator statements runs (any operands, any aliasing), a cell that is outside
+    the target of every statement keeps its value -/
+theorem run_frame {len : Nat} (stmts : List (Stmt len)) (mem : Mem len) (a : Fin len) (h : ∀ s ∈ stmts, s.TargetOutside a) :
+    (Stmt.run stmts mem)[a] = mem[a] := by
+  induction stmts generalizing mem with
+  | nil => rfl
+  | cons s rest ih =>
+    have hs := h s (List.mem_cons_self ..)
+    have hstep : (s.exec mem)[a] = mem[a] := by
+      cases s with
+      | add t x => exact (memberOps_frame t x mem a hs).1
+      | sub t x => exact (memberOps_frame t x mem a hs).2.1
+      | mul t x => exact (memberOps_frame t x mem a hs).2.2
+      | smul t sc => exact mulAssignScalar_frame t sc mem a hs
+      | asg t x => exact assignConv_frame t x mem a hs
+      | ctor t x => exact assignValue_frame t _ mem a hs
+      | set t i v => exact Lemma.set_frame mem _ a v (hs i)
+    show (Stmt.run rest (s.exec mem))[a] = mem[a]
+    rw [ih (s.exec mem) fun s' hs' => h s' (List.mem_cons_of_mem _ hs'), hstep]
+
+theorem run_append {len : Nat} (p q : List (Stmt len)) (mem : Mem len) : Stmt.run (p ++ q) mem = Stmt.run q (Stmt.run p mem) := by
+  simp [Stmt.run, List.foldl_append]
+
+/-- save – mutate – restore: `b = a; a *= s; a += x; a = b` gives `a` its old value back, whatever `s` and `x` alias
+    (as long as `b` is disjoint from `a` and is not overwritten in between) -/
+theorem save_mutate_restore {len n : Nat} (a b x : Ref len n) (s : Scalar len) (mem : Mem len)
+    (hab : ∀ i j, a.addr i ≠ b.addr j) (i : Fin n) :
+    (a.load (Stmt.run [.asg b a, .smul a s, .add a x, .asg a b] mem)).get i = (a.load mem).get i := by
+  have hba : NoClobber b a := noClobber_of_disjoint b a fun i j => (hab j i).symm
+  have hab' : NoClobber a b := noClobber_of_disjoint a b hab
+  show (a.load (assignConv a b (addAssign a x (mulAssignScalar a s (assignConv b a mem))))).get i = _
+  rw [assignConv_eq a b _ hab', load_get, load_get]
+  have hb : ∀ k, a.Outside (b.addr k) := fun k j => hab j k
+  show (addAssign a x (mulAssignScalar a s (assignConv b a mem)))[b.addr i] = _
+  rw [(memberOps_frame a x _ _ (hb i)).1, mulAssignScalar_frame a s _ _ (hb i)]
+  have := assignConv_eq b a mem hba i
+  rwa [load_get, load_get] at this
+
+/-! ### matrices -/
+
+/-- `m += x` on matrices is the free `+` (Mathlib's), also for `m += m` -/
+theorem mat_addAssign {len r c : Nat} (m x : MatRef len r c) (mem : Mem len) (h : NoClobber m.s x.s) :
+    (m.load (addAssign m.s x.s mem)).toMatrix = (m.load mem).toMatrix + (x.load mem).toMatrix := by
+  ext i j
+  simp only [Lemma.Mat.toMatrix_apply, Matrix.add_apply, Lemma.load_atRC]
+  exact (Lemma.memberOperator_elem (· + ·) elemAdd (fun _ _ _ => rfl) m.s x.s mem h).1 _
+
+theorem mat_subAssign {len r c : Nat} (m x : MatRef len r c) (mem : Mem len) (h : NoClobber m.s x.s) :
+    (m.load (subAssign m.s x.s mem)).toMatrix = (m.load mem).toMatrix - (x.load mem).toMatrix := by
+  ext i j
+  simp only [Lemma.Mat.toMatrix_apply, Matrix.sub_apply, Lemma.load_atRC]
+  exact (Lemma.memberOperator_elem (· - ·) elemSub (fun _ _ _ => rfl) m.s x.s mem h).1 _
+
+/-- `m *= s` is `s • m` with the value `s` had before the call, for every scalar argument — also an entry of `m` -/
+theorem mat_mulAssignScalar {len r c : Nat} (m : MatRef len r c) (s : Scalar len) (mem : Mem len) :
+    (m.load (mulAssignScalar m.s s mem)).toMatrix = s.read mem • (m.load mem).toMatrix := by
+  ext i j
+  simp only [Lemma.Mat.toMatrix_apply, Matrix.smul_apply, Lemma.load_atRC, mulAssignScalar, smul_eq_mul]
+  rw [(Lemma.multiplyScalar_spec m.s (s.read mem) mem).1, Int.mul_comm]
+
+/-- a write through a row view changes the matrix: after `at_r<i>(m) += v` row `i` of `m` is the old row plus `v`, the other
+    rows are unchanged -/
+theorem row_addAssign {len r c : Nat} (m : MatRef len r c) (i : Fin r) (v : Ref len c) (mem : Mem len) (h : NoClobber (m.atR i) v)
+    (i' : Fin r) (j : Fin c) :
+    (m.load (addAssign (m.atR i) v mem)).atRC i' j =
+      if i' = i then (m.load mem).atRC i j + (v.load mem).get j else (m.load mem).atRC i' j := by
+  by_cases hi : i' = i
+  · subst hi
+    rw [if_pos rfl]
+    have := addAssign_eq_add (m.atR i') v mem h j
+    simpa [load_atR, add, Mat.atRC] using this
+  · rw [if_neg hi, ← load_atRC, ← load_atRC]
+    exact (memberOps_frame (m.atR i) v mem _ fun k => Lemma.rows_disjoint m hi j k).1
+
+/-- `at_r<i>(m) += at_r<j>(m)` for any two rows of the same matrix (also `i = j`) -/
+theorem row_addAssign_row {len r c : Nat} (m : MatRef len r c) (i j : Fin r) (mem : Mem len) (i' : Fin r) (k : Fin c) :
+    (m.load (addAssign (m.atR i) (m.atR j) mem)).atRC i' k =
+      if i' = i then (m.load mem).atRC i k + (m.load mem).atRC j k else (m.load mem).atRC i' k := by
+  rw [row_addAssign m i (m.atR j) mem (noClobber_rows m i j)]; rfl
+
+/-- `at_r<i>(m) *= s` scales row `i` by the value `s` had before the call (also `at_r<1>(m) *= m.m10()`), other rows unchanged -/
+theorem row_mulAssignScalar {len r c : Nat} (m : MatRef len r c) (i : Fin r) (s : Scalar len) (mem : Mem len) (i' : Fin r) (j : Fin c) :
+    (m.load (mulAssignScalar (m.atR i) s mem)).atRC i' j =
+      if i' = i then (m.load mem).atRC i j * s.read mem else (m.load mem).atRC i' j := by
+  by_cases hi : i' = i
+  · subst hi
+    rw [if_pos rfl]
+    have := mulAssignScalar_eq_smulR (m.atR i') s mem j
+    simpa [load_atR, smulR, Mat.atRC] using this
+  · rw [if_neg hi, ← load_atRC, ← load_atRC]
+    exact mulAssignScalar_frame (m.atR i) s mem _ fun k => Lemma.rows_disjoint m hi j k
+
+/-! ## 11. neighbouring API: vector ∘ dim, contents, is_quadratic, to_dim / to_vector, unit, transform_point / direction, infinity norm -/
+
+/-- `vector + dim`, `vector - dim`, `vector * dim` are component-wise -/
+theorem get_vecDimOps {n : Nat} (l r : Vec n) (i : Fin n) :
+    (addD l r).get i = l.get i + r.get i ∧ (subD l r).get i = l.get i - r.get i ∧ (mulD l r).get i = l.get i * r.get i := by
+  simp [addD, subD, mulD, dimMap]
+
+/-- `vector / dim` is `vector / vector` on the components (so `divV_some`, `divV_none` describe it) -/
+theorem divD_eq_divV {n : Nat} (l r : Vec n) : divD l r = divV l r := rfl
+
+/-- `dim::contents` is the product of the components (1 for dimension 0) -/
+theorem contents_eq_prod {n : Nat} (d : Vec n) : contents d = ∏ i, d.get i := Lemma.contents_eq_prod d
+
+theorem isQuadratic_iff {n : Nat} (d : Vec (n + 1)) : isQuadratic d = true ↔ ∀ i, d.get i = d.get 0 := Lemma.isQuadratic_iff d
+
+/-- `to_dim`, `to_vector` keep every component -/
+theorem get_toDifferent {n : Nat} (s : Vec n) (i : Fin n) : (toDifferent s).get i = s.get i := Lemma.get_toDifferent s i
+
+theorem get_unit (n axis : Nat) (i : Fin n) : (unit n axis).get i = if i.val = axis then 1 else 0 := Lemma.get_unit n axis i
+
+/-- `transform_point(m, v)`: the first three components of `m · (v, 1)` -/
+theorem get_transformPoint (m : Mat 4 4) (v : Vec 3) (i : Fin 3) :
+    (m.transformPoint v).get i =
+      m.atRC i.castSucc 0 * v.get 0 + m.atRC i.castSucc 1 * v.get 1 + m.atRC i.castSucc 2 * v.get 2 + m.atRC i.castSucc 3 := by
+  have h := congrFun (Lemma.toFun_mulVec m (pushBack v 1)) i.castSucc
+  simp only [Mat.transformPoint, Lemma.get_narrowCast]
+  simp only [Lemma.Storage.toFun_apply] at h
+  rw [show (⟨i.val, _⟩ : Fin 4) = i.castSucc from rfl, h]
+  simp [Matrix.mulVec, dotProduct, Fin.sum_univ_four, Lemma.get_pushBack]
+
+/-- `transform_direction(m, v)`: the first three components of `m · (v, 0)` -/
+theorem get_transformDirection (m : Mat 4 4) (v : Vec 3) (i : Fin 3) :
+    (m.transformDirection v).get i = m.atRC i.castSucc 0 * v.get 0 + m.atRC i.castSucc 1 * v.get 1 + m.atRC i.castSucc 2 * v.get 2 := by
+  have h := congrFun (Lemma.toFun_mulVec m (pushBack v 0)) i.castSucc
+  simp only [Mat.transformDirection, Lemma.get_narrowCast]
+  simp only [Lemma.Storage.toFun_apply] at h
+  rw [show (⟨i.val, _⟩ : Fin 4) = i.castSucc from rfl, h]
+  simp [Matrix.mulVec, dotProduct, Fin.sum_univ_four, Lemma.get_pushBack]
+
+/-- a translation moves points and leaves directions alone; a scaling scales both -/
+theorem transformPoint_translation (tx ty tz : Int) (v : Vec 3) (i : Fin 3) :
+    ((Mat.translation tx ty tz).transformPoint v).get i = v.get i + ![tx, ty, tz] i := by
+  rw [get_transformPoint]
+  have hm := toMatrix_translation tx ty tz
+  have e : ∀ a b, (Mat.translation tx ty tz).atRC a b = !![1, 0, 0, tx; 0, 1, 0, ty; 0, 0, 1, tz; 0, 0, 0, 1] a b := fun a b => by rw [← hm]; rfl
+  simp only [e]
+  fin_cases i <;> simp
+
+theorem transformDirection_translation (tx ty tz : Int) (v : Vec 3) (i : Fin 3) :
+    ((Mat.translation tx ty tz).transformDirection v).get i = v.get i := by
+  rw [get_transformDirection]
+  have hm := toMatrix_translation tx ty tz
+  have e : ∀ a b, (Mat.translation tx ty tz).atRC a b = !![1, 0, 0, tx; 0, 1, 0, ty; 0, 0, 1, tz; 0, 0, 0, 1] a b := fun a b => by rw [← hm]; rfl
+  simp only [e]
+  fin_cases i <;> simp
+
+theorem transformPoint_scaling (sx sy sz : Int) (v : Vec 3) (i : Fin 3) :
+    ((Mat.scaling sx sy sz).transformPoint v).get i = ![sx, sy, sz] i * v.get i := by
+  rw [get_transformPoint]
+  have hm := toMatrix_scaling sx sy sz
+  have e : ∀ a b, (Mat.scaling sx sy sz).atRC a b = Matrix.diagonal ![sx, sy, sz, 1] a b := fun a b => by rw [← hm]; rfl
+  simp only [e]
+  fin_cases i <;> simp [Matrix.diagonal]
+
+/-- `math::mod` is C++ `%` (truncating), nothing for a zero divisor; `vector::mod` applies it per component -/
+theorem mod_some (a b r : Int) : mod a b = some r ↔ b ≠ 0 ∧ r = Int.tmod a b := Lemma.mod_eq_some a b r
+theorem mod_none (a b : Int) : mod a b = none ↔ b = 0 := Lemma.mod_eq_none a b
+/-- on the operands the code can be instantiated with (unsigned `T`) it is the mathematical remainder -/
+theorem mod_of_nonneg (a b : Int) (ha : 0 ≤ a) (hb : 0 < b) : mod a b = some (a % b) := by
+  rw [mod_some]; exact ⟨by omega, (Int.tmod_eq_emod_of_nonneg ha).symm⟩
+theorem modV_some {n : Nat} (v0 v1 w : Vec n) :
+    modV v0 v1 = some w ↔ w.IsStatic ∧ ∀ i, v1.get i ≠ 0 ∧ w.get i = Int.tmod (v0.get i) (v1.get i) := Lemma.modV_eq_some v0 v1 w
+theorem modV_none {n : Nat} (v0 v1 : Vec n) : modV v0 v1 = none ↔ ∃ i, v1.get i = 0 := Lemma.modV_eq_none v0 v1
+theorem modS_some {n : Nat} (v w : Vec n) (d : Int) :
+    modS v d = some w ↔ w.IsStatic ∧ ∀ i, d ≠ 0 ∧ w.get i = Int.tmod (v.get i) d := Lemma.modS_eq_some v w d
+theorem modS_none {n : Nat} (v : Vec n) (d : Int) : modS v d = none ↔ 0 < n ∧ d = 0 := Lemma.modS_eq_none v d
+
+/-- `math::ceil_div_signed(a, b)` is the ceiling of the exact quotient for every combination of signs, nothing for `b = 0` -/
+theorem ceilDivSigned_eq_ceil (a b q : Int) (h : ceilDivSigned a b = some q) : q = ⌈(a : ℚ) / b⌉ := Lemma.ceilDivSigned_eq_ceil a b q h
+theorem ceilDivSigned_none (a b : Int) : ceilDivSigned a b = none ↔ b = 0 := Lemma.ceilDivSigned_eq_none a b
+theorem ceilDivSigned_some (a b : Int) (h : b ≠ 0) : ∃ q, ceilDivSigned a b = some q := by
+  cases hq : ceilDivSigned a b with
+  | none => exact absurd ((Lemma.ceilDivSigned_eq_none a b).1 hq) h
+  | some q => exact ⟨q, rfl⟩
+
+/-- `vector::ceil_div_signed(v, d)`: the ceiling per component -/
+theorem ceilDivSignedV_some {n : Nat} (v w : Vec n) (d : Int) (h : ceilDivSignedV v d = some w) (i : Fin n) :
+    d ≠ 0 ∧ w.get i = ⌈((v.get i : Int) : ℚ) / d⌉ := by
+  simp only [ceilDivSignedV, Lemma.sequence_eq_some] at h
+  have hi := h.2 i
+  simp only [Fin.getElem_fin, Vector.getElem_ofFn, Lemma.getElem_toArray] at hi
+  refine ⟨fun h0 => ?_, Lemma.ceilDivSigned_eq_ceil _ _ _ hi⟩
+  rw [h0, (Lemma.ceilDivSigned_eq_none _ 0).2 rfl] at hi
+  cases hi
+
+/-- `infinity_norm` of a matrix with at least one row is the largest absolute row sum -/
+theorem infinityNorm_max {r c : Nat} (m : Mat (r + 1) c) :
+    (∀ i, m.rowAbsSum i ≤ m.infinityNorm) ∧ ∃ i, m.infinityNorm = m.rowAbsSum i := by
+  rw [Lemma.infinityNorm_eq_fold]
+  obtain ⟨_, hle, hex⟩ := Lemma.fold_max longMin m.rowAbsSum
+  refine ⟨hle, ?_⟩
+  rcases hex with h | h
+  · have h0 := hle 0
+    have := Lemma.rowAbsSum_nonneg m 0
+    rw [h] at h0
+    exact absurd (le_trans this h0) (by decide)
+  · exact h
+
+theorem infinityNorm_nonneg {r c : Nat} (m : Mat (r + 1) c) : 0 ≤ m.infinityNorm :=
+  le_trans (Lemma.rowAbsSum_nonneg m 0) ((infinityNorm_max m).1 0)
+
+/-- `rowAbsSum` is `Σ_j |a_ij|` -/
+theorem rowAbsSum_eq {r c : Nat} (m : Mat r c) (i : Fin r) : m.rowAbsSum i = ∑ j, |m.atRC i j| := rfl
+
 /-! ## non-vacuity and the repaired defect -/
 
 /-- a concrete non-trivial instance of the hypotheses: a unimodular 2×2 matrix in view storage -/
@@ -436,5 +791,25 @@ example : ((Mat.single 5).adjugate).atRC 0 0 = 1 := by decide
     `A · adj A = [0] ≠ [5] = det A · 1` — the property was false for every 1×1 matrix with non-zero entry -/
 example : ((Mat.single 5).oldAdjugate).atRC 0 0 = 0 := by decide
 example : ((Mat.single 5).mul (Mat.single 5).oldAdjugate).atRC 0 0 ≠ (Mat.smulL (Mat.single 5).oldDet (Mat.identity 1)).atRC 0 0 := by decide
+
+/-- member operators, non-vacuity: `v = (2, 3, -4)`, `v *= v.x()` gives `(4, 6, -8)` (the factor is copied at the call) -/
+example : (mulAssignScalar (.static 0 (by decide) : Ref 3 3) (.cell ⟨0, by decide⟩) #v[2, 3, -4]).toList = [4, 6, -8] := by decide
+
+/-- **refuted seeded variant C14-1** (`multiply_scalar` takes the factor by `const &` and captures it by reference):
+    `(2, 3, -4) *= x` gives `(4, 12, -16)` — `x` is already 4 when `y` and `z` are scaled — so `*=` is not the free `*` -/
+example : (multiplyScalarByRef (.static 0 (by decide) : Ref 3 3) (.cell ⟨0, by decide⟩) #v[2, 3, -4]).toList = [4, 12, -16] := by decide
+example : ∃ (v : Ref 3 3) (k : Fin 3) (mem : Mem 3) (i : Fin 3),
+    (v.load (multiplyScalarByRef v (.cell (v.atI k)) mem)).get i ≠ (smulR (v.load mem) ((v.load mem).get k)).get i :=
+  ⟨.static 0 (by decide), 0, #v[2, 3, -4], 1, by decide⟩
+
+/-- `at_r<0>(m) += at_r<1>(m)` and `at_r<1>(m) += at_r<1>(m)` on the 2×2 matrix `[[1, 2], [3, 4]]` -/
+example : (addAssign ((⟨.static 0 (by decide)⟩ : MatRef 4 2 2).atR 0) ((⟨.static 0 (by decide)⟩ : MatRef 4 2 2).atR 1) #v[1, 2, 3, 4]).toList = [4, 6, 3, 4] := by decide
+example : (addAssign ((⟨.static 0 (by decide)⟩ : MatRef 4 2 2).atR 1) ((⟨.static 0 (by decide)⟩ : MatRef 4 2 2).atR 1) #v[1, 2, 3, 4]).toList = [1, 2, 6, 8] := by decide
+
+/-- the hypothesis `NoClobber` is needed: a target view that starts one cell *behind* the start of an overlapping right operand
+    reads cells it has already written (`[1, 2, 3]`: the view at 1 `+=` the view at 0 gives `[1, 3, 6]`, the free `+` would give `[1, 3, 5]`) -/
+example : (addAssign (.buffer 1 (by decide) : Ref 3 2) (.buffer 0 (by decide)) #v[1, 2, 3]).toList = [1, 3, 6] := by decide
+example : ¬ NoClobber (.buffer 1 (by decide) : Ref 3 2) (.buffer 0 (by decide)) := by
+  rw [noClobber_iff]; decide
 
 end Fcppt.C14
